@@ -46,6 +46,10 @@ def instances(tier, seed):
     # hard selection asked of a Gumbel block, evaluated in eval mode (no noise): "under hard selection it equals the same metric on the exported network"
     for s in specs[:3]:
         out.append({'id': f'{snlib.prog_id(s)}:full=1:gs_hard_eval', 'spec': s, 'full': True, 'mode': 'gs_hard_eval', 'wseed': seed})
+    # two-stage search: an exported SuperNet as one alternative of a block of a second SuperNet (its layer names contain 'sn_branches' twice)
+    for mode in ('soft', 'hard'):
+        s2 = {'two_stage': True}
+        out.append({'id': f'{snlib.prog_id(s2)}:full=1:{mode}', 'spec': s2, 'full': True, 'mode': mode, 'wseed': seed})
     # hard Gumbel sampling in training mode: the cost is weighted by the SAMPLED one-hot (which need not sit at the largest raw coefficient)
     for s in (specs[0], specs[3]):
         out.append({'id': f'{snlib.prog_id(s)}:full=0:gs_hard_train', 'spec': s, 'full': False, 'mode': 'gs_hard_train', 'wseed': seed})
@@ -91,7 +95,7 @@ def scratch(spec, wseed):
     branches = {}
     for n in par:
         if '.sn_branches.' in n:
-            block, rest = n.split('.sn_branches.')
+            block, rest = n.split('.sn_branches.', 1)       # the outermost choice block (an exported network inside a branch keeps inner names)
             bi = int(rest.split('.')[0])
             d = branches.setdefault(block, {}).setdefault(bi, {'params': 0, 'ops': 0})
             d['params'] += par[n]
